@@ -55,6 +55,9 @@ V = [
     ("norm-frobenius-product", ["C05", "C07"], "NORM", "ProductState.measure", [(S + "composite_envelope.py", "ProductState.measure", "self.state /= jnp.trace(self.state)", "self.state /= jnp.linalg.norm(self.state)")]),
     ("norm-trace-on-ket", ["C01", "C07"], "NORM", "CustomState.apply_operation", [(S + "custom_state.py", "CustomState.apply_operation", "            if operation.renormalize:\n                self.state = self.state / jnp.linalg.norm(self.state)", "            if operation.renormalize:\n                self.state = self.state / jnp.trace(self.state)")]),
     ("renorm-dropped", ["C01", "C07"], "RENORM", "Polarization.apply_operation", [(S + "polarization.py", "Polarization.apply_operation", "            if operation.renormalize:\n                self.state = self.state / jnp.linalg.norm(self.state)\n", "")]),
+    # a *different* defect at a site that already carries a listed known finding must not be masked by it
+    ("collapse-known-site-other-axis", ["C05"], "COLLAPSE", "Envelope.measure", [(S + "envelope.py", "Envelope.measure", "                        self.fock.state = jnp.einsum(\"ijk->ik\", ps)", "                        self.fock.state = jnp.einsum(\"ijk->jk\", ps)")]),
+    ("flags-known-site-inverted", ["C05"], "FLAGS", "Envelope.measure", [(S + "envelope.py", "Envelope.measure", "                out = s.measure()", "                out = s.measure(destructive=not destructive)")]),
     ("zero-test-dropped", ["C07", "C17"], "ZERO", "Envelope.apply_operation", [(S + "envelope.py", "Envelope.apply_operation", "            if not jnp.any(jnp.abs(ps) > 0):\n                raise ValueError(\n                    \"The state is entirely composed of zeros, is |0⟩ attempted \"\n                    \"to be annihilated?\"\n                )\n", "")]),
     ("outer-drop-conj-fock", ["C08"], "OUTER", "Fock.expand", [(S + "fock.py", "Fock.expand", "self.state.flatten(), jnp.conj(self.state.flatten())", "self.state.flatten(), self.state.flatten()")]),
     ("outer-drop-conj-envelope", ["C08"], "OUTER", "Envelope.expand", [(S + "envelope.py", "Envelope.expand", "jnp.dot(self.state, jnp.conj(self.state.T))", "jnp.dot(self.state, self.state.T)")]),
